@@ -773,7 +773,7 @@ struct Extractor {
   }
 
   // ---------------------------------------------------------------- statements
-  void emitVar(json::OStream &J, const VarDecl *VD) {
+  void emitVar(json::OStream &J, const VarDecl *VD, bool withInit = true) {
     J.object([&] {
       J.attribute("name", VD->getNameAsString());
       J.attribute("vid", varId(VD));
@@ -806,7 +806,7 @@ struct Extractor {
             });
         });
       }
-      if (VD->getInit()) {
+      if (withInit && VD->getInit()) {
         J.attributeBegin("init");
         emitExpr(J, VD->getInit());
         J.attributeEnd();
@@ -909,7 +909,7 @@ struct Extractor {
       } else if (auto *RS = dyn_cast<CXXForRangeStmt>(S)) {
         J.attribute("k", "rangefor");
         J.attributeBegin("var");
-        emitVar(J, RS->getLoopVariable());
+        emitVar(J, RS->getLoopVariable(), false); // the implicit `*__begin` initialiser is safe by construction
         J.attributeEnd();
         J.attributeBegin("range");
         emitExprOrNull(J, RS->getRangeInit());
